@@ -123,6 +123,53 @@ macro_rules! misc_types_digest {
         let _ = write!(s, "{}|{:7.2}|{:#}|{:?}|{:+4?}|{:#?}|{};", t1, t1, t1, t1, t1, t2, hs!(one) == hs!(200u8));
         let nn: $rc<f64> = $rc::new(1.0);
         let _ = write!(s, "{}{}{}{}{}{}{}{};", nan < nn, nan <= nn, nan > nn, nan >= nn, nn < nan, nn <= nan, nn > nan, nn >= nan);
+        // Weak identity is the allocation's, whether or not the value is still there: dead vs
+        // dangling, dead vs dead (two allocations), dead vs its own clone, dead vs live
+        {
+            let a: $rc<Big> = $rc::new(Big(1, 1));
+            let b2: $rc<Big> = $rc::new(Big(2, 2));
+            let live: $rc<Big> = $rc::new(Big(3, 3));
+            let (wa, wb, wl) = ($rc::downgrade(&a), $rc::downgrade(&b2), $rc::downgrade(&live));
+            let wa2 = wa.clone();
+            let dang: $weak<Big> = $weak::new();
+            let pa = wa.as_ptr();
+            let pre = (wa.ptr_eq(&wb), wa.ptr_eq(&wa2), wa.ptr_eq(&dang), dang.ptr_eq(&wa));
+            drop(a);
+            drop(b2);
+            let _ = write!(
+                s,
+                "{:?}{}{}{}{}{}{}{}{}{}{}{};",
+                pre,
+                wa.ptr_eq(&wb),
+                wb.ptr_eq(&wa),
+                wa.ptr_eq(&wa2),
+                wa.ptr_eq(&dang),
+                dang.ptr_eq(&wa),
+                wa.ptr_eq(&wl),
+                wl.ptr_eq(&wa),
+                wa.as_ptr() == pa,
+                wa.as_ptr() == wa2.as_ptr(),
+                wa.as_ptr() == wb.as_ptr(),
+                dang.ptr_eq(&$weak::new())
+            );
+            let z1: $rc<()> = $rc::new(());
+            let z2: $rc<()> = $rc::new(());
+            let (wz1, wz2) = ($rc::downgrade(&z1), $rc::downgrade(&z2));
+            let zpre = (wz1.ptr_eq(&wz2), $rc::ptr_eq(&z1, &z2), $rc::ptr_eq(&z1, &z1.clone()));
+            drop(z1);
+            let _ = write!(s, "{:?}{}{}{}{};", zpre, wz1.ptr_eq(&wz2), wz1.ptr_eq(&wz1.clone()), wz1.upgrade().is_none(), wz2.upgrade().is_some());
+        }
+        // {:p} prints the address of the value (what as_ptr returns and what &*rc is), for every shape
+        let st0: $rc<String> = $rc::new(String::from("p"));
+        let _ = write!(
+            s,
+            "{}{}{}{}{};",
+            format!("{:p}", big) == format!("{:p}", $rc::as_ptr(&big)),
+            format!("{:p}", big) == format!("{:p}", &*big),
+            format!("{:p}", one) == format!("{:p}", &*one),
+            format!("{:p}", arr) == format!("{:p}", $rc::as_ptr(&arr)),
+            format!("{:p}", st0) == format!("{:p}", &*st0)
+        );
         // the caller's format options reach the payload
         let fl: $rc<f64> = $rc::new(3.14159);
         let neg: $rc<i32> = $rc::new(-42);
